@@ -16,6 +16,11 @@
 //   hint <bytes> / bf / reset <k> <n>   HintChunkSize / BeforeFirst / ResetPartition -> ok | <state>
 //   drain rec|chunk|mix <s>|chunkrd <q> consume to the end                      -> blobs <hex>* end [recs <hex>* end] | <state>
 //   create <text|recordio> <k> <n> <defw>  InputSplit::Create on real files, NextRecord to the end -> recs <hex>* end
+//   shnew <text|recordio> <k> <n> <m> <defw> <perm> <seed>   InputSplitShuffle::Create on real files (m shuffle parts); <perm> =
+//                                         the order the generator predicts for shuffle_indexes_ (own mt19937 + std::shuffle)
+//                                         -> ok / perm-differs <actual> / err:check
+//   shrec / shdrain                     NextRecord / NextRecord to the end          -> rec <hex> | false / recs <hex>* end
+//   shbf <perm> / shreset <k> <n>       BeforeFirst (predicted new order) / ResetPartition -> ok / perm-differs <actual> / err:check
 //   <state> = offBegin offEnd offCurr filePtr fpos overflowLen chunkBegin chunkRemaining dataWords bufWords
 //             [w wrapperChunkNull wBegin wRemaining wDataWords wBufWords]
 //   after a dmlc::Error the object is poisoned: every further op answers "poisoned" until the next new.
@@ -29,6 +34,8 @@
 #include <algorithm>
 #include <fstream>
 #include <memory>
+#include <random>
+#include <set>
 #include <sstream>
 #include "common/memfs.h"
 #include "common/proto.h"
@@ -38,6 +45,7 @@
 #include <io/line_split.h>
 #include <io/recordio_split.h>
 #include <io/single_threaded_input_split.h>
+#include <dmlc/input_split_shuffle.h>
 #undef private
 #undef protected
 
@@ -121,6 +129,7 @@ struct SplitHarness : vh::Harness {
   }
   void begin_case(const Case &) override {
     drop();
+    shuffle.reset();
     files.clear();
     file_recs.clear();
     is_recfile.clear();
@@ -159,6 +168,30 @@ struct SplitHarness : vh::Harness {
     std::string u = uri();
     if (is_text) return new dmlc::io::LineSplitter(&fs, u.c_str(), k, n);
     return new dmlc::io::RecordIOSplitter(&fs, u.c_str(), k, n, false);
+  }
+
+  // the file table as real files (InputSplit::Create / InputSplitShuffle go through the local file system)
+  std::string real_uri() {
+    std::string dir = out_dir + "/cfiles";
+    mkdir(dir.c_str(), 0777);
+    std::string u;
+    for (size_t i = 0; i < files.size(); ++i) {
+      std::string p = dir + "/f" + std::to_string(i);
+      std::ofstream of(p, std::ios::binary | std::ios::trunc);
+      of.write(files[i].data(), files[i].size());
+      of.close();
+      u += (i ? ";" : "") + p;
+    }
+    return u;
+  }
+  std::unique_ptr<InputSplit> shuffle;   // the InputSplitShuffle under test (ops sh*)
+  // does shuffle_indexes_ hold the order the generator predicted?
+  std::string perm_check(const std::string &want) {
+    auto *o = static_cast<dmlc::InputSplitShuffle *>(shuffle.get());
+    std::string got;
+    for (size_t i = 0; i < o->shuffle_indexes_.size(); ++i) got += (i ? "," : "") + std::to_string(o->shuffle_indexes_[i]);
+    if (got.empty()) got = "-";
+    return got == want ? "ok" : "perm-differs " + got;
   }
 
   // one NextRecord / NextChunk on the object under test; 1 = blob, 0 = false
@@ -292,6 +325,48 @@ struct SplitHarness : vh::Harness {
         owner.reset(base);
       }
       return "ok | " + state();
+    }
+    if (op == "shnew" && w.size() == 8) {
+      shuffle.reset();
+      unsigned k = strtoul(w[2].c_str(), nullptr, 10), n = strtoul(w[3].c_str(), nullptr, 10), m = strtoul(w[4].c_str(), nullptr, 10);
+      try {
+        shuffle.reset(dmlc::InputSplitShuffle::Create(real_uri().c_str(), k, n, w[1].c_str(), m, atoi(w[7].c_str())));
+      } catch (const dmlc::Error &) {
+        return "err:check";
+      }
+      return perm_check(w[6]);
+    }
+    if (op == "shrec" || op == "shdrain" || op == "shbf" || op == "shreset") {
+      if (!shuffle) return "no-object";
+      try {
+        if (op == "shrec") {
+          InputSplit::Blob b;
+          if (!shuffle->NextRecord(&b)) return "false";
+          return "rec " + vh::hex(std::string(static_cast<const char *>(b.dptr), b.size));
+        }
+        if (op == "shdrain") {
+          std::string res = "recs";
+          InputSplit::Blob b;
+          size_t cnt = 0;
+          while (shuffle->NextRecord(&b)) {
+            res += " " + vh::hex(std::string(static_cast<const char *>(b.dptr), b.size));
+            if (++cnt > 20000) return "runaway";
+          }
+          return res + " end";
+        }
+        if (op == "shbf" && w.size() == 2) {
+          shuffle->BeforeFirst();
+          return perm_check(w[1]);
+        }
+        if (op == "shreset" && w.size() == 3) {
+          shuffle->ResetPartition(strtoul(w[1].c_str(), nullptr, 10), strtoul(w[2].c_str(), nullptr, 10));
+          return "ok";
+        }
+      } catch (const dmlc::Error &) {
+        shuffle.reset();
+        return "err:check";
+      }
+      return "bad-op";
     }
     if (op == "create" && w.size() == 5) {
       unsigned k = strtoul(w[2].c_str(), nullptr, 10), n = strtoul(w[3].c_str(), nullptr, 10);
@@ -568,6 +643,91 @@ struct SplitHarness : vh::Harness {
     }
   }
 
+  void shuffle_oracle(const Case &c, const std::vector<std::string> &res, std::vector<std::string> *fail) {
+    std::string type;
+    unsigned k0 = 0, k = 0, n = 1, m = 1;
+    bool have = false, complete = false, reset_elsewhere = false;
+    std::multiset<std::string> seg;
+    std::string seg_what;
+    std::string uri;
+    auto reference = [&](std::multiset<std::string> *out) {
+      try {
+        for (unsigned j = 0; j < m; ++j) {
+          std::unique_ptr<InputSplit> s(InputSplit::Create(uri.c_str(), k * m + j, n * m, type.c_str()));
+          InputSplit::Blob b;
+          while (s->NextRecord(&b)) out->insert(std::string(static_cast<const char *>(b.dptr), b.size));
+        }
+      } catch (const dmlc::Error &) {
+        return false;
+      }
+      return true;
+    };
+    auto close_seg = [&]() {
+      if (!have) return;
+      std::multiset<std::string> want;
+      if (!reference(&want)) return;
+      bool ok = complete ? seg == want : std::includes(want.begin(), want.end(), seg.begin(), seg.end());
+      if (!ok) {
+        std::string cls = (m > 1 && reset_elsewhere) ? "shuffle-reset-old-part" : "none";
+        std::string got, exp;
+        for (auto &x : seg) got += " " + vh::hex(x);
+        for (auto &x : want) exp += " " + vh::hex(x);
+        fail->push_back("class=" + cls + " prop=C05 InputSplitShuffle after " + seg_what + " delivers {" + got.substr(0, 300) + " }" +
+                        (complete ? " but part " : " which is not part of part ") + std::to_string(k) + " of " + std::to_string(n) +
+                        " (" + std::to_string(m) + " shuffle parts) holds {" + exp.substr(0, 300) + " }");
+      }
+    };
+    for (size_t i = 0; i < c.ops.size(); ++i) {
+      auto w = vh::split_ws(c.ops[i]);
+      const std::string &r = res[i];
+      if (w[0] == "shnew" && w.size() == 8) {
+        close_seg();
+        have = r == "ok";
+        type = w[1];
+        k0 = k = strtoul(w[2].c_str(), nullptr, 10);
+        n = strtoul(w[3].c_str(), nullptr, 10);
+        m = strtoul(w[4].c_str(), nullptr, 10);
+        uri = real_uri();
+        seg.clear();
+        complete = false;
+        reset_elsewhere = false;
+        seg_what = "construction";
+        if (r.compare(0, 12, "perm-differs") == 0)
+          fail->push_back("class=none prop=C05 InputSplitShuffle: shuffle order differs from std::shuffle over mt19937(666+k+n+m+seed): " + r);
+        else if (!have && k < n && m > 0)
+          fail->push_back("class=none prop=C05 InputSplitShuffle::Create failed on a well-formed input: " + r);
+        continue;
+      }
+      if (!have) continue;
+      if (r.compare(0, 4, "err:") == 0 || r == "runaway" || r == "no-object") {
+        bool legal = !(w[0] == "shreset" && strtoul(w[2].c_str(), nullptr, 10) != n);
+        if (legal) fail->push_back("class=none prop=C05 InputSplitShuffle operation " + c.ops[i] + " failed: " + r);
+        have = false;
+        continue;
+      }
+      if (w[0] == "shrec") {
+        if (r == "false") complete = true;
+        else seg.insert(vh::unhex(r.substr(4)));
+      } else if (w[0] == "shdrain") {
+        auto t = vh::split_ws(r);
+        for (size_t j = 1; j + 1 < t.size(); ++j) seg.insert(t[j] == "-" ? std::string() : vh::unhex(t[j]));
+        complete = true;
+      } else if (w[0] == "shbf" || w[0] == "shreset") {
+        close_seg();
+        seg.clear();
+        complete = false;
+        seg_what = c.ops[i];
+        if (w[0] == "shreset") {
+          k = strtoul(w[1].c_str(), nullptr, 10);
+          if (k != k0) reset_elsewhere = true;
+        }
+        if (r.compare(0, 12, "perm-differs") == 0)
+          fail->push_back("class=none prop=C05 InputSplitShuffle::BeforeFirst: shuffle order differs from the predicted one: " + r);
+      }
+    }
+    close_seg();
+  }
+
   void end_case(const Case &c, const std::vector<std::string> &res, std::vector<std::string> *fail) override {
     bool cover = c.kind.compare(0, 5, "cover") == 0;
     bool hist = c.kind.compare(0, 4, "hist") == 0;
@@ -648,6 +808,10 @@ struct SplitHarness : vh::Harness {
         i = j;
       }
     }
+    // ---- InputSplitShuffle histories: after construction / BeforeFirst / ResetPartition(k, n) the records delivered are
+    // (a sub-multiset of, and once the pass has ended exactly) the records of the m sub-parts k*m .. k*m+m-1 of n*m,
+    // each read here through a plain InputSplit::Create (independent of the wrapper)
+    if (c.kind.compare(0, 7, "shuffle") == 0) shuffle_oracle(c, res, fail);
     // ---- URI cases: file list (names, sizes, offsets) against an independent expansion of the URI, then cover
     if (c.kind.compare(0, 3, "uri") == 0) uri_oracle(c, res, fail);
     // ---- histories: after every bf / reset the delivered stream is (a prefix of) the fresh stream
@@ -1123,7 +1287,61 @@ struct Gen {
     R.run_case(c);
   }
 
+  // InputSplitShuffle histories (real files; the generator predicts every shuffle order with its own engine)
+  void c05_shuffle() {
+    auto alpha = rec_alphabet();
+    size_t ncase = thorough() ? 3000 : 300;
+    for (size_t it = 0; it < ncase; ++it) {
+      Case c;
+      bool text = rng.chance(1, 2);
+      size_t nf = 1 + rng.below(3);
+      for (size_t i = 0; i < nf; ++i) {
+        if (text) {
+          std::string f = random_text(rng, 60);
+          if (f.empty()) f = "x\n";
+          c.ops.push_back("file " + std::to_string(i) + " " + vh::hex(f));
+        } else {
+          std::vector<std::string> recs;
+          size_t nr = 1 + rng.below(6);
+          for (size_t j = 0; j < nr; ++j) recs.push_back(random_record(rng, alpha));
+          c.ops.push_back(recfile_op(i, recs));
+        }
+      }
+      unsigned n = 1 + static_cast<unsigned>(rng.below(3)), m = 1 + static_cast<unsigned>(rng.below(4));
+      unsigned k = static_cast<unsigned>(rng.below(n));
+      int seed = static_cast<int>(rng.below(1000));
+      std::mt19937 eng;
+      eng.seed(666 + k + n + m + seed);
+      std::vector<int> order;
+      for (unsigned i = 0; i < m; ++i) order.push_back(static_cast<int>(i));
+      std::shuffle(order.begin(), order.end(), eng);
+      auto show_order = [&]() {
+        std::string o;
+        for (size_t i = 0; i < order.size(); ++i) o += (i ? "," : "") + std::to_string(order[i]);
+        return o;
+      };
+      c.kind = std::string("shuffle ") + (text ? "text" : "recordio") + " m=" + std::to_string(m);
+      c.ops.push_back(std::string("shnew ") + (text ? "text " : "recordio ") + std::to_string(k) + " " + std::to_string(n) + " " +
+                      std::to_string(m) + " " + std::to_string(InputSplitBase::kBufferSize) + " " + show_order() + " " + std::to_string(seed));
+      size_t len = rng.below(10);
+      for (size_t j = 0; j < len; ++j) {
+        switch (rng.below(8)) {
+          case 0: case 1: case 2: case 3: c.ops.push_back("shrec"); break;
+          case 4: c.ops.push_back("shdrain"); break;
+          case 5:
+            if (m > 1) std::shuffle(order.begin(), order.end(), eng);
+            c.ops.push_back("shbf " + show_order());
+            break;
+          default: c.ops.push_back("shreset " + std::to_string(rng.below(n)) + " " + std::to_string(n));
+        }
+      }
+      c.ops.push_back("shdrain");
+      R.run_case(c);
+    }
+  }
+
   void c05() {
+    c05_shuffle();
     std::vector<Input> inputs;
     {
       Input a;
